@@ -12,16 +12,20 @@ repo = '/repo'
 if '--repo' in args:   # a scratch copy / worktree of /repo (e.g. $VP_RUN_REPO): /repo itself is not touched
     i = args.index('--repo'); repo = os.path.abspath(args[i + 1]); del args[i:i + 2]
 HERE = os.path.dirname(os.path.abspath(__file__))
-names = args or sorted(os.listdir(os.path.join(HERE, 'seeded')))
+sub = 'seeded'
+if '--dir' in args:    # 'benign': behaviour-changing, property-preserving changes (every check must stay quiet)
+    i = args.index('--dir'); sub = args[i + 1]; del args[i:i + 2]
+names = args or sorted(os.listdir(os.path.join(HERE, sub)))
 def sh(c, **kw):
     return subprocess.run(c, shell=True, stdout=subprocess.PIPE, stderr=subprocess.STDOUT, text=True, **kw)
 def clean():
     return sh('cd %s && git status --porcelain' % repo).stdout.strip() == ''
 assert clean(), 'repo not clean'
+ALL = [c['property_id'] for c in json.load(open(os.path.join(HERE, 'MANIFEST.json')))['checks']]
 for n in names:
-    d = os.path.join(HERE, 'seeded', n)
+    d = os.path.join(HERE, sub, n)
     meta = json.load(open(os.path.join(d, 'meta.json')))
-    props = props_override or [meta['breaks_property']]
+    props = props_override or ([meta['breaks_property']] if meta.get('breaks_property') else ALL)
     r = sh('cd %s && git apply %s/patch.diff' % (repo, d))
     if r.returncode != 0:
         print(n, 'PATCH FAILED', r.stdout[-300:]); continue
